@@ -41,8 +41,9 @@ Definition times_fully_enclosed (tr : trange) (low high : Z) : bool :=
 Inductive atom :=
 | ACmp (f : N) (o : cop) (l : literal) (ci : bool)   (* field op literal *)
 | ATerm (w : bytes) (neg : bool)                     (* free-text word or phrase (any text column); neg = NegateMatch *)
-| AAny (o : cop) (l : literal).                      (* all-column comparison: free-text NUMBER `404` = `*=404`, `*<5`, ...
-                                                        (SearchType SimpleExpressionAllColumns) *)
+| AAny (o : cop) (l : literal) (neg : bool).         (* all-column comparison: free-text NUMBER `404` = `*=404`, `*<5`, ...
+                                                        (SearchType SimpleExpressionAllColumns); neg = ExpressionFilter.NegateMatch:
+                                                        the records where NO column satisfies it (`NOT 404`, `*!=404` = AAny Eq 404 true) *)
 
 Inductive expr :=
 | EAtom (a : atom)
@@ -74,7 +75,7 @@ Definition spec_atom (a : atom) (ev : event) : bool :=
   match a with
   | ACmp f o l ci => spec_cmp ci o (field f ev) l
   | ATerm w neg => xorb neg (text_fields_any (word_occurs true w) ev)
-  | AAny o l => existsb (fun kv => spec_cmp true o (snd kv) l) (ev_fields ev)   (* some field of the event satisfies it *)
+  | AAny o l neg => xorb neg (existsb (fun kv => spec_cmp true o (snd kv) l) (ev_fields ev))   (* some field of the event satisfies it *)
   end.
 
 Fixpoint spec_eval (e : expr) (ev : event) : bool :=
@@ -97,7 +98,7 @@ Definition neg_atom (a : atom) : atom :=
   match a with
   | ACmp f o l ci => ACmp f (flip o) l ci
   | ATerm w neg => ATerm w (negb neg)
-  | AAny o l => AAny (flip o) l          (* the terminal's operator is flipped whatever the field name is *)
+  | AAny o l neg => AAny o l (negb neg)  (* the operator is kept, the result of the comparison is negated (Comparison.Negated) *)
   end.
 
 (* NOT-free expressions as the parser hands them to the search *)
@@ -115,7 +116,8 @@ Fixpoint push_not (neg : bool) (e : expr) : pexpr :=
    string column with IsSubWordPresent; NegateMatch inverts).
    SimpleExpressionAllColumns reads only the columns the block plan lists for the block
    (filterRecordsFromSearchQuery: searchReq.CmiPassedCnames[blockNum]); [cs] is that list,
-   None = no restriction (every column of the record). *)
+   None = no restriction (every column of the record); a negated query (SearchQuery.IsNegated)
+   selects the records the positive filter does not match. *)
 Definition colsel := option (list N).
 Definition col_in (cs : colsel) (k : N) : bool :=
   match cs with None => true | Some l => existsb (N.eqb k) l end.
@@ -124,7 +126,7 @@ Definition impl_atom_in (cs : colsel) (a : atom) (ev : event) : bool :=
   match a with
   | ACmp f o l ci => impl_cmp ci o (field f ev) l
   | ATerm w neg => xorb neg (text_fields_any (fun s => is_subword true s w) ev)
-  | AAny o l => existsb (fun kv => col_in cs (fst kv) && impl_cmp true o (snd kv) l) (ev_fields ev)
+  | AAny o l neg => xorb neg (existsb (fun kv => col_in cs (fst kv) && impl_cmp true o (snd kv) l) (ev_fields ev))
   end.
 Definition impl_atom : atom -> event -> bool := impl_atom_in None.
 
@@ -205,10 +207,9 @@ Definition atom_guard (neg : bool) (a : atom) (ev : event) : bool :=
   | ACmp f o l ci =>
       cmp_guard (if neg then flip o else o) (field f ev) l && (negb neg || comparable o (field f ev) l)
   | ATerm _ _ => true
-  | AAny o l =>
-      (* "some field satisfies it": exact when every field is inside cmp_guard; under a NOT the flipped
-         operator is again evaluated as "some field ...", which is not the complement *)
-      negb neg && forallb (fun kv => cmp_guard o (snd kv) l) (ev_fields ev)
+  | AAny o l _ =>
+      (* "some field satisfies it": exact when every field is inside cmp_guard; a NOT negates the result *)
+      forallb (fun kv => cmp_guard o (snd kv) l) (ev_fields ev)
   end.
 
 Fixpoint expr_guard (neg : bool) (e : expr) (ev : event) : bool :=
@@ -220,7 +221,7 @@ Fixpoint expr_guard (neg : bool) (e : expr) (ev : event) : bool :=
 
 (* well-formedness: what the encodings / the literal parser can produce *)
 Definition ev_wf (ev : event) : bool := forallb (fun kv => stored_wf (snd kv)) (ev_fields ev).
-Definition atom_wf (a : atom) : bool := match a with ACmp _ _ l _ | AAny _ l => lit_wf l | ATerm _ _ => true end.
+Definition atom_wf (a : atom) : bool := match a with ACmp _ _ l _ | AAny _ l _ => lit_wf l | ATerm _ _ => true end.
 Fixpoint expr_wf (e : expr) : bool :=
   match e with
   | EAtom a => atom_wf a
